@@ -72,83 +72,92 @@ theorem R.get_map [Inhabited α] [Inhabited β] (r : R α) (f : α → β) :
 theorem R.isOk_ofOption (o : Option α) : (R.ofOption o).isOk = o.isSome := by cases o <;> rfl
 theorem R.get_ofOption [Inhabited α] (o : Option α) : (R.ofOption o).get = Rust.oget o := by cases o <;> rfl
 
-theorem R.isOk_ite (c : Prop) [Decidable c] (a b : R α) :
-    (if c then a else b).isOk = if c then a.isOk else b.isOk := by split <;> rfl
-theorem R.get_ite [Inhabited α] (c : Prop) [Decidable c] (a b : R α) :
-    (if c then a else b).get = if c then a.get else b.get := by split <;> rfl
+/-- Every `if` of the generated and reference definitions tests a `Bool`; it is turned into `bif` first, so
+that no `Decidable` instance has to follow the rewriting of the condition. -/
+theorem Rust.ite_true_eq_cond (b : Bool) (x y : α) : (if b = true then x else y) = bif b then x else y := by
+  cases b <;> rfl
 
-theorem Rust.isSome_ite (c : Prop) [Decidable c] (a b : Option α) :
-    (if c then a else b).isSome = if c then a.isSome else b.isSome := by split <;> rfl
-theorem Rust.oget_ite [Inhabited α] (c : Prop) [Decidable c] (a b : Option α) :
-    Rust.oget (if c then a else b) = if c then Rust.oget a else Rust.oget b := by split <;> rfl
+theorem R.isOk_cond (c : Bool) (a b : R α) :
+    (bif c then a else b).isOk = bif c then a.isOk else b.isOk := by cases c <;> rfl
+theorem R.get_cond [Inhabited α] (c : Bool) (a b : R α) :
+    (bif c then a else b).get = bif c then a.get else b.get := by cases c <;> rfl
+
+theorem Rust.isSome_cond (c : Bool) (a b : Option α) :
+    (bif c then a else b).isSome = bif c then a.isSome else b.isSome := by cases c <;> rfl
+theorem Rust.oget_cond [Inhabited α] (c : Bool) (a b : Option α) :
+    Rust.oget (bif c then a else b) = bif c then Rust.oget a else Rust.oget b := by cases c <;> rfl
 @[simp] theorem Rust.oget_some [Inhabited α] (a : α) : Rust.oget (some a) = a := rfl
 @[simp] theorem Rust.oget_none [Inhabited α] : Rust.oget (none : Option α) = default := rfl
 
-theorem Rust.eIsOk_ite (c : Prop) [Decidable c] (a b : Except Unit α) :
-    Rust.eIsOk (if c then a else b) = if c then Rust.eIsOk a else Rust.eIsOk b := by split <;> rfl
-theorem Rust.eget_ite [Inhabited α] (c : Prop) [Decidable c] (a b : Except Unit α) :
-    Rust.eget (if c then a else b) = if c then Rust.eget a else Rust.eget b := by split <;> rfl
+theorem Rust.eIsOk_cond (c : Bool) (a b : Except Unit α) :
+    Rust.eIsOk (bif c then a else b) = bif c then Rust.eIsOk a else Rust.eIsOk b := by cases c <;> rfl
+theorem Rust.eget_cond [Inhabited α] (c : Bool) (a b : Except Unit α) :
+    Rust.eget (bif c then a else b) = bif c then Rust.eget a else Rust.eget b := by cases c <;> rfl
 @[simp] theorem Rust.eIsOk_ok (a : α) : Rust.eIsOk (Except.ok a : Except Unit α) = true := rfl
 @[simp] theorem Rust.eIsOk_error (u : Unit) : Rust.eIsOk (Except.error u : Except Unit α) = false := rfl
 @[simp] theorem Rust.eget_ok [Inhabited α] (a : α) : Rust.eget (Except.ok a : Except Unit α) = a := rfl
 @[simp] theorem Rust.eget_error [Inhabited α] (u : Unit) : Rust.eget (Except.error u : Except Unit α) = default := rfl
 
-theorem Rust.fst_ite (c : Prop) [Decidable c] (a b : α × β) :
-    (if c then a else b).1 = if c then a.1 else b.1 := by split <;> rfl
-theorem Rust.snd_ite (c : Prop) [Decidable c] (a b : α × β) :
-    (if c then a else b).2 = if c then a.2 else b.2 := by split <;> rfl
+theorem Rust.fst_cond (c : Bool) (a b : α × β) :
+    (bif c then a else b).1 = bif c then a.1 else b.1 := by cases c <;> rfl
+theorem Rust.snd_cond (c : Bool) (a b : α × β) :
+    (bif c then a else b).2 = bif c then a.2 else b.2 := by cases c <;> rfl
+theorem Rust.fst_mk (a : α) (b : β) : (a, b).1 = a := rfl
+theorem Rust.snd_mk (a : α) (b : β) : (a, b).2 = b := rfl
 
-/-- `onOpt` is an `if` on `isSome`; observers then go through the `ite` lemmas. -/
+/-- `onOpt` is a `bif` on `isSome`; observers then go through the `cond` lemmas. -/
 theorem Rust.onOpt_eq [Inhabited α] (o : Option α) (f : α → β) (n : β) :
-    Rust.onOpt o f n = if o.isSome then f (Rust.oget o) else n := by cases o <;> rfl
+    Rust.onOpt o f n = bif o.isSome then f (Rust.oget o) else n := by cases o <;> rfl
 theorem Rust.onRes_eq [Inhabited α] (r : Except Unit α) (f : α → β) (n : β) :
-    Rust.onRes r f n = if Rust.eIsOk r then f (Rust.eget r) else n := by cases r <;> rfl
+    Rust.onRes r f n = bif Rust.eIsOk r then f (Rust.eget r) else n := by cases r <;> rfl
 theorem Rust.unwrap_eq [Inhabited α] (o : Option α) :
-    Rust.unwrap o = if o.isSome then R.ok (Rust.oget o) else R.panic := by cases o <;> rfl
+    Rust.unwrap o = bif o.isSome then R.ok (Rust.oget o) else R.panic := by cases o <;> rfl
 theorem R.ofOption_eq [Inhabited α] (o : Option α) :
-    R.ofOption o = if o.isSome then R.ok (Rust.oget o) else R.panic := by cases o <;> rfl
+    R.ofOption o = bif o.isSome then R.ok (Rust.oget o) else R.panic := by cases o <;> rfl
 theorem Rust.bind_eq [Inhabited α] (r : R α) (f : α → R β) :
-    r.bind f = if r.isOk then f r.get else R.panic := by cases r <;> rfl
+    r.bind f = bif r.isOk then f r.get else R.panic := by cases r <;> rfl
 theorem Rust.map_eq [Inhabited α] (r : R α) (f : α → β) :
-    r.map f = if r.isOk then R.ok (f r.get) else R.panic := by cases r <;> rfl
+    r.map f = bif r.isOk then R.ok (f r.get) else R.panic := by cases r <;> rfl
 theorem Rust.monad_bind_eq (r : R α) (f : α → R β) : (r >>= f) = r.bind f := rfl
 end
 
 /-- Observers of values of the primitive operations. -/
 theorem Rust.checkedAdd_isSome {w} (a b : BitVec w) : (Rust.checkedAdd a b).isSome = !BitVec.uaddOverflow a b := by
-  unfold Rust.checkedAdd; split <;> simp_all
+  unfold Rust.checkedAdd; cases BitVec.uaddOverflow a b <;> rfl
 theorem Rust.checkedAdd_oget {w} (a b : BitVec w) :
-    Rust.oget (Rust.checkedAdd a b) = if BitVec.uaddOverflow a b then default else a + b := by
-  unfold Rust.checkedAdd; split <;> simp_all
+    Rust.oget (Rust.checkedAdd a b) = bif BitVec.uaddOverflow a b then default else a + b := by
+  unfold Rust.checkedAdd; cases BitVec.uaddOverflow a b <;> rfl
 theorem Rust.checkedSub_isSome {w} (a b : BitVec w) : (Rust.checkedSub a b).isSome = !BitVec.usubOverflow a b := by
-  unfold Rust.checkedSub; split <;> simp_all
+  unfold Rust.checkedSub; cases BitVec.usubOverflow a b <;> rfl
 theorem Rust.checkedSub_oget {w} (a b : BitVec w) :
-    Rust.oget (Rust.checkedSub a b) = if BitVec.usubOverflow a b then default else a - b := by
-  unfold Rust.checkedSub; split <;> simp_all
+    Rust.oget (Rust.checkedSub a b) = bif BitVec.usubOverflow a b then default else a - b := by
+  unfold Rust.checkedSub; cases BitVec.usubOverflow a b <;> rfl
 theorem Rust.checkedMul_isSome {w} (a b : BitVec w) : (Rust.checkedMul a b).isSome = !BitVec.umulOverflow a b := by
-  unfold Rust.checkedMul; split <;> simp_all
+  unfold Rust.checkedMul; cases BitVec.umulOverflow a b <;> rfl
 theorem Rust.checkedMul_oget {w} (a b : BitVec w) :
-    Rust.oget (Rust.checkedMul a b) = if BitVec.umulOverflow a b then default else a * b := by
-  unfold Rust.checkedMul; split <;> simp_all
+    Rust.oget (Rust.checkedMul a b) = bif BitVec.umulOverflow a b then default else a * b := by
+  unfold Rust.checkedMul; cases BitVec.umulOverflow a b <;> rfl
 
 @[simp] theorem Rust.default_bitvec {w} : (default : BitVec w) = 0#w := rfl
 @[simp] theorem Rust.default_bool : (default : Bool) = false := rfl
 @[simp] theorem Rust.default_option {α} : (default : Option α) = none := rfl
+theorem Rust.default_prod {α β} [Inhabited α] [Inhabited β] : (default : α × β) = (default, default) := rfl
+theorem Rust.default_unit : (default : Unit) = () := rfl
 
 /-- The lemmas that eliminate every combinator into `if` and push observers to the leaves. -/
 macro "rust_obs_simp" : tactic =>
-  `(tactic| simp only [Rust.monad_bind_eq, Rust.bind_eq, Rust.map_eq, Rust.onOpt_eq, Rust.onRes_eq, Rust.unwrap_eq,
-      R.ofOption_eq,
-      R.isOk_ite, R.get_ite, Rust.isSome_ite, Rust.oget_ite, Rust.eIsOk_ite, Rust.eget_ite, Rust.fst_ite, Rust.snd_ite,
+  `(tactic| simp only [Rust.ite_true_eq_cond, Rust.monad_bind_eq, Rust.bind_eq, Rust.map_eq, Rust.onOpt_eq,
+      Rust.onRes_eq, Rust.unwrap_eq, R.ofOption_eq,
+      R.isOk_cond, R.get_cond, Rust.isSome_cond, Rust.oget_cond, Rust.eIsOk_cond, Rust.eget_cond, Rust.fst_cond,
+      Rust.snd_cond, Rust.fst_mk, Rust.snd_mk,
       R.isOk_ok, R.isOk_panic, R.get_ok, R.get_panic, Rust.oget_some, Rust.oget_none, Option.isSome_some,
       Option.isSome_none, Rust.eIsOk_ok, Rust.eIsOk_error, Rust.eget_ok, Rust.eget_error,
       Rust.checkedAdd_isSome, Rust.checkedAdd_oget, Rust.checkedSub_isSome, Rust.checkedSub_oget,
       Rust.checkedMul_isSome, Rust.checkedMul_oget,
-      Rust.add, Rust.sub, Rust.mul, Rust.rem, Rust.div, Rust.isPowerOfTwo, Rust.getBits, Rust.setBits,
+      Rust.add, Rust.sub, Rust.mul, Rust.rem, Rust.div, Rust.shl, Rust.shr, Rust.isPowerOfTwo, Rust.getBits, Rust.setBits,
       Rust.fieldMask, Rust.getBit, Rust.setBit,
-      Rust.default_bitvec, Rust.default_bool, Rust.default_option,
-      Bool.and_eq_true, Bool.or_eq_true, Bool.not_eq_true', beq_iff_eq, bne_iff_ne, decide_eq_true_eq,
-      Bool.if_true_left, Bool.if_false_right, if_true, if_false] at *)
+      Rust.default_bitvec, Rust.default_bool, Rust.default_option, Rust.default_prod, Rust.default_unit,
+      cond_true, cond_false] at *)
 
 end X86
 
@@ -170,4 +179,53 @@ macro "bv_nat" : tactic =>
   `(tactic| ((try simp -implicitDefEqProofs only [bitvec_to_nat, BitVec.toNat_umod, BitVec.toNat_udiv,
       BitVec.ult_iff_lt, BitVec.ule_iff_le] at *) <;> (try simp only [Nat.reducePow, Nat.reduceMod] at *) <;> omega))
 
+end X86
+
+namespace X86
+theorem R.ext_obs_iff {α} [Inhabited α] {r s : R α} :
+    r = s ↔ (r.isOk = s.isOk ∧ (r.isOk = true → r.get = s.get)) :=
+  ⟨fun h => by subst h; exact ⟨rfl, fun _ => rfl⟩, fun ⟨h1, h2⟩ => R.ext_obs h1 h2⟩
+theorem Rust.opt_ext_obs_iff {α} [Inhabited α] {r s : Option α} :
+    r = s ↔ (r.isSome = s.isSome ∧ (r.isSome = true → Rust.oget r = Rust.oget s)) :=
+  ⟨fun h => by subst h; exact ⟨rfl, fun _ => rfl⟩, fun ⟨h1, h2⟩ => Rust.opt_ext_obs h1 h2⟩
+theorem Rust.res_ext_obs_iff {α} [Inhabited α] {r s : Except Unit α} :
+    r = s ↔ (Rust.eIsOk r = Rust.eIsOk s ∧ (Rust.eIsOk r = true → Rust.eget r = Rust.eget s)) :=
+  ⟨fun h => by subst h; exact ⟨rfl, fun _ => rfl⟩, fun ⟨h1, h2⟩ => Rust.res_ext_obs h1 h2⟩
+theorem Rust.prod_ext_obs_iff {α β} {r s : α × β} : r = s ↔ (r.1 = s.1 ∧ r.2 = s.2) :=
+  ⟨fun h => by subst h; exact ⟨rfl, rfl⟩, fun ⟨h1, h2⟩ => Rust.prod_ext_obs h1 h2⟩
+theorem Rust.unit_eq (a b : Unit) : (a = b) = True := by simp
+end X86
+
+namespace X86
+/-! ### normal form for structural (non-`bv_decide`) tie proofs: everything is a right-nested `R.bind` -/
+theorem R.map_eq_bind {α β} (r : R α) (f : α → β) : r.map f = r.bind fun a => R.ok (f a) := by cases r <;> rfl
+theorem R.bind_assoc {α β γ} (r : R α) (f : α → R β) (g : β → R γ) :
+    (r.bind f).bind g = r.bind fun a => (f a).bind g := by cases r <;> rfl
+theorem Rust.unwrap_eq_ofOption {α} (o : Option α) : Rust.unwrap o = R.ofOption o := by cases o <;> rfl
+theorem R.bind_cond {α β} (c : Bool) (a b : R α) (f : α → R β) :
+    (bif c then a else b).bind f = bif c then a.bind f else b.bind f := by cases c <;> rfl
+theorem R.bind_panic' {α β} (f : α → R β) : (R.panic : R α).bind f = R.panic := rfl
+theorem R.bind_onOpt {α β γ} (o : Option α) (g : α → R β) (n : R β) (f : β → R γ) :
+    (Rust.onOpt o g n).bind f = Rust.onOpt o (fun a => (g a).bind f) (n.bind f) := by cases o <;> rfl
+
+theorem Rust.onRes_ok {α β} (a : α) (f : α → β) (n : β) : Rust.onRes (Except.ok a : Except Unit α) f n = f a := rfl
+theorem Rust.onRes_error {α β} (u : Unit) (f : α → β) (n : β) : Rust.onRes (Except.error u : Except Unit α) f n = n := rfl
+theorem Rust.onOpt_some {α β} (a : α) (f : α → β) (n : β) : Rust.onOpt (some a) f n = f a := rfl
+theorem Rust.onOpt_none {α β} (f : α → β) (n : β) : Rust.onOpt (none : Option α) f n = n := rfl
+theorem Rust.onOpt_ok_ok {α β} (o : Option α) (g : α → β) (n : β) :
+    Rust.onOpt o (fun x => R.ok (g x)) (R.ok n) = R.ok (Rust.onOpt o g n) := by cases o <;> rfl
+theorem Rust.onOpt_some_none {α} (o : Option α) : Rust.onOpt o (fun x => some x) none = o := by cases o <;> rfl
+theorem Rust.onOpt_cond {α β} (c : Bool) (a b : Option α) (f : α → β) (n : β) :
+    Rust.onOpt (bif c then a else b) f n = bif c then Rust.onOpt a f n else Rust.onOpt b f n := by cases c <;> rfl
+theorem R.ofOption_bind_ok {α β} (o : Option α) (g : α → β) :
+    (R.ofOption o).bind (fun a => R.ok (g a)) = R.ofOption (o.map g) := by cases o <;> rfl
+
+/-- Structural tie: unfold the generated definition, rewrite the calls of translated functions with their tie
+theorems, unfold the reference definition, bring both sides into bind-normal form; they must then coincide. -/
+syntax "tie_struct" "[" Lean.Parser.Tactic.simpLemma,* "]" : tactic
+macro_rules
+  | `(tactic| tie_struct [$ls,*]) => `(tactic|
+      (simp (disch := assumption) only [$ls,*, Rust.monad_bind_eq, R.map_eq_bind, R.bind_assoc, R.bind_ok,
+        R.bind_panic', Rust.unwrap_eq_ofOption, R.bind_cond, R.bind_onOpt, Rust.onRes_ok, Rust.onRes_error,
+        Rust.onOpt_some, Rust.onOpt_none, Rust.onOpt_ok_ok, Rust.onOpt_some_none]))
 end X86
